@@ -524,6 +524,10 @@ def make_jobs(ctx, rng):
                 if not supported(fd, m, t):
                     ctx.count('unsupported (non-prime field, t>0, m>=q): skipped')
                     continue
+                if not ctx.thorough and (m, t) in ((2, 0), (3, 0), (5, 0), (5, 1)) and user_order(fd) > 5 \
+                        and (idx + FIELDS.index(fd)) % 2:
+                    ctx.count('quick tier: field skipped in this configuration (rotation)')
+                    continue
                 if ctx.thorough:
                     level = 2
                 elif m == 1:
